@@ -362,8 +362,26 @@ def gen_free(rng, tier):
         yield base(U, progs, [rng.randrange(100)], warm=rng.random() < 0.4)
 
 
+def covered_forced(a, msg=""):
+    """forced schedules are deterministic: a failing input belongs to a listed finding when it has the shape the
+    finding describes (covered_conc, decidable on the input) AND every thread returns exactly what the interleaved
+    model of the unchanged code computes for this schedule (replay through the driver op conc.run), the failing
+    thread included. Another outcome under a schedule of the same shape is reported."""
+    fid = covered_conc(a, msg)
+    if fid is None:
+        return None
+    from framework import Driver
+
+    try:
+        mo = Driver().run([{"op": "conc.run", "args": a}])[0]["ok"]["results"]
+        outs, _, _ = run_forced(a)
+    except Exception:  # noqa: BLE001  (no driver / no answer: nothing can be attributed to a finding)
+        return None
+    return fid if mo == outs and mo != alone_results(a) else None
+
+
 ORACLES = [
-    Oracle("forced-interleavings", gen_conc, check_forced, covered_conc, from_ops=("conc.run",)),
+    Oracle("forced-interleavings", gen_conc, check_forced, covered_forced, from_ops=("conc.run",)),
     Oracle("free-running", gen_free, check_free, covered_conc),
 ]
 
